@@ -80,7 +80,11 @@ def valid_value(rng, kind, attr, enc_pool=None):
         md = gen.gen_metadata(rng)
         k = rng.below(10)
 
-        if k < 3:
+        if k == 9:
+            # statistics somebody else computed (stale or simply different)
+            md['stats'] = {'changes': 9, 'files': 9, 'insertions': 1,
+                           'deletions': 2, 'lines changed': 3}
+        elif k < 3:
             # the shapes real metadata has: nested dicts, lists of dicts
             md['path'] = {'old': 'a/' + rng.choice(['x', 'y', 'z']),
                           'new': 'b/' + rng.choice(['x', 'y', 'z'])}
@@ -116,6 +120,11 @@ def invalid_value(rng, kind, attr):
                 'text/plain\u2028', 'b\u0131nary', 'JSON', 'Text',
                 'unix\n', 'dos\n', 'json\n', 'text\n', 'binary\n',
                 'text/plain\n', 'unix\r\n',
+                # legacy / neighbouring spellings someone might "also allow"
+                'text/x-markdown', 'text/x-diff', 'text/x-patch',
+                'application/json', 'application/octet-stream', 'crlf',
+                'lf', 'native', 'windows', '1.1', '1.0.0', '0.9', 'json5',
+                'bin', 'utf8',
                 # values that upset the code building the error message
                 '%s', '%d %(x)s', '{}', '{0}{x}', "it's \"x\"", 'a\nb',
                 'x' * 5000, '\ud800', '\x00', '%']
